@@ -7,7 +7,7 @@ From Coq Require Import Reals.
 From Coquelicot Require Import Coquelicot.
 From Coq Require Import Sorted Lra.
 From Exmex.Spec Require Import RefSem.
-From Exmex.Proofs Require Import Vars DeepSem DeepSubs C11Main DeepOps NormalForm Hereditary ConvertCompose RuleAnalysis RealCarrier CalcSem Dual PartialCorrect PartialRuled RemoveLoop PartialTotal PartialMain FlatPartial.
+From Exmex.Proofs Require Import Vars DeepSem DeepSubs C11Main DeepOps NormalForm Hereditary ConvertCompose RuleAnalysis RealCarrier CalcSem Dual PartialCorrect PartialRuled RemoveLoop Unparse PartialTotal PartialMain FlatPartial.
 Import ListNotations.
 Open Scope nat_scope.
 
@@ -149,35 +149,35 @@ Proof. intros D C DC tb okop okvar okvars vi. exact (partial_ok_ruled C DC tb ok
 
 (* ... and conversely differentiation SUCCEEDS on expressions over operators with rules: for every data type (any carrier
    with any equality test and constants) and the default table, on every deep expression as the constructors build it
-   (operand counts, operators of the table, names within the variable lists at every level) all of whose operators have
-   rules, partial_deepex with fuel beyond the nesting depth (partial_iter passes depth + 2) returns an expression, closed
+   (operand counts, operators of the table, names within the variable lists at every level, recorded unary operators unary)
+   all of whose operators have rules, partial_deepex with fuel beyond the nesting depth (partial_iter passes depth + 2) returns an expression, closed
    under its variable list, or the documented error of the power shortcut for 0^0 -- never a panic, never another error *)
 Theorem C05_differentiation_succeeds :
   forall (D : Type) (C : carrier D) (DC : dcarrier D) (vi : nat) (okvar : nat -> str -> Prop) (okvars : list str -> Prop)
          (fuel : nat) (e : deepex D),
-  ddepth e < fuel -> dwf (tflagged float_table) okvar okvars e -> hc e -> ruled float_table e ->
+  ddepth e < fuel -> dwf (tflagged float_table) okvar okvars e -> hc e -> uok float_table e -> ruled float_table e ->
   match partial_deepex C DC float_table fuel vi e MError with
-  | Ok d => dclosed (tflagged float_table) (dvars d) d
+  | Ok d => dclosed (tflagged float_table) (dvars d) d /\ uok float_table d
   | Err err => err = E_POW00
   | Panic _ => False
   end.
-Proof. intros D C DC vi okvar okvars fuel e H1 H2 H3 H4. exact (partial_total C DC vi okvar okvars fuel e H1 H2 H3 H4). Qed.
+Proof. intros D C DC vi okvar okvars fuel e H1 H2 H3 H4 H5. exact (partial_total C DC vi okvar okvars fuel e H1 H2 H3 H4 H5). Qed.
 
 (* hence, over the reals: for every built expression over differentiable operators the derivative exists as an expression
    (or differentiation reports 0^0) and evaluates to the mathematical derivative *)
 Theorem C05_partial_of_expressions_over_differentiable_operators :
   forall (e : deepex R) (vi fuel : nat),
-  built e -> ruled float_table e -> vi < length (dvars e) -> ddepth e < fuel ->
+  built e -> uok float_table e -> ruled float_table e -> vi < length (dvars e) -> ddepth e < fuel ->
   partial_deepex Rc RDC float_table fuel vi e MError = Err E_POW00 \/
-  exists d, partial_deepex Rc RDC float_table fuel vi e MError = Ok d /\ dvars d = dvars e /\ built d /\
+  exists d, partial_deepex Rc RDC float_table fuel vi e MError = Ok d /\ dvars d = dvars e /\ built d /\ uok float_table d /\
     forall rho : str -> R, in_domain e vi rho ->
       is_derive (fun t => dden Rc (nlook (line rho (nth vi (dvars e) nil) t)) e) (rho (nth vi (dvars e) nil)) (dden Rc (nlook rho) d).
 Proof.
-  intros e vi fuel Hb Hr Hvi Hf. pose proof Hb as (Hix & Hh & Hn).
-  pose proof (partial_total Rc RDC vi (indexed (dvars e)) (okl (dvars e)) fuel e Hf Hix Hh Hr) as Ht.
+  intros e vi fuel Hb Hu Hr Hvi Hf. pose proof Hb as (Hix & Hh & Hn).
+  pose proof (partial_total Rc RDC vi (indexed (dvars e)) (okl (dvars e)) fuel e Hf Hix Hh Hu Hr) as Ht.
   destruct (partial_deepex Rc RDC float_table fuel vi e MError) as [d|err|site] eqn:E; cbn [fine] in Ht; [right|left; subst; reflexivity|destruct Ht].
   exists d. split; [reflexivity|]. destruct (partial_is_derivative e d vi fuel Hb Hvi E) as (H1 & _ & _ & H4).
-  split; [exact H1|]. split; [exact (partial_built e d vi fuel Hb Hvi E)|exact H4].
+  split; [exact H1|]. split; [exact (partial_built e d vi fuel Hb Hvi E)|]. split; [exact (proj2 Ht)|exact H4].
 Qed.
 
 (* FLAT expressions (Differentiate::partial on FlatEx = to_deepex, partial, compile, from_deepex): for every flat expression
